@@ -121,6 +121,8 @@ typedef struct {
         size_t stride; /* F_LANE: bytes between lanes; F_ROWS: bytes between lanes inside a row */
         size_t len;    /* F_LANE: bytes per lane checked; F_ROWS: bytes per word */
         size_t nrows, row_stride;
+        size_t ni_stride; /* F_ROWS only: bytes between lanes when the manager runs the 2-lane SHA-NI layout
+                           * (digest words of a lane contiguous), 0 = no such layout */
 } fdef;
 
 typedef struct {
@@ -130,12 +132,14 @@ typedef struct {
         int nlanes;
         const fdef *f;
         int nf;
+        size_t tnl_off; /* offset of total_num_lanes (uint32_t), 0 = none */
 } odef;
 
-#define LANE(T, nm, member, str, ln) { nm, F_LANE, offsetof(T, member), str, ln, 0, 0 }
-#define ROWS(T, nm, member, wsz, nr, rs) { nm, F_ROWS, offsetof(T, member), wsz, wsz, nr, rs }
+#define LANE(T, nm, member, str, ln) { nm, F_LANE, offsetof(T, member), str, ln, 0, 0, 0 }
+#define ROWS(T, nm, member, wsz, nr, rs) { nm, F_ROWS, offsetof(T, member), wsz, wsz, nr, rs, 0 }
+#define ROWSNI(T, nm, member, wsz, nr, rs, ni) { nm, F_ROWS, offsetof(T, member), wsz, wsz, nr, rs, ni }
 #define ODEF(T, jil, jstr, nl, tab)                                                                \
-        { #T, sizeof(T), offsetof(T, jil), jstr, nl, tab, (int) (sizeof(tab) / sizeof(tab[0])) }
+        { #T, sizeof(T), offsetof(T, jil), jstr, nl, tab, (int) (sizeof(tab) / sizeof(tab[0])), 0 }
 
 static const fdef f_aes[] = {
         LANE(MB_MGR_AES_OOO, "args.keys", args.keys, 8, 8),
@@ -175,7 +179,7 @@ static const fdef f_zuc[] = {
         LANE(MB_MGR_ZUC_OOO, "args.keys", args.keys, 8, 8),
         LANE(MB_MGR_ZUC_OOO, "args.iv", args.iv, 32, 32),
         LANE(MB_MGR_ZUC_OOO, "args.ks", args.ks, 128, 128),
-        ROWS(MB_MGR_ZUC_OOO, "state", state, 4, 22, 64),
+        ROWS(MB_MGR_ZUC_OOO, "state", state, 4, 22, 0), /* row stride = 4 * lanes of the architecture */
 };
 static const fdef f_snow3g[] = {
         LANE(MB_MGR_SNOW3G_OOO, "args.keys", args.keys, 8, 8),
@@ -183,16 +187,16 @@ static const fdef f_snow3g[] = {
         LANE(MB_MGR_SNOW3G_OOO, "ks", ks, 32, 32),
 };
 #define HMAC_FIELDS(T, LD, drows, dword, drs, xb, ob)                                              \
-        ROWS(T, "args.digest", args.digest, dword, drows, drs),                                    \
+        ROWSNI(T, "args.digest", args.digest, dword, drows, drs, (dword) == 4 ? ((drows) == 5 ? 20 : (drows) == 4 ? 0 : 32) : 0), \
                 LANE(T, "ldata.extra_block", ldata[0].extra_block, sizeof(LD), xb),                \
                 LANE(T, "ldata.outer_block", ldata[0].outer_block, sizeof(LD), ob)
 static const fdef f_hmac_sha1[] = { HMAC_FIELDS(MB_MGR_HMAC_SHA_1_OOO, HMAC_SHA1_LANE_DATA, 5, 4,
                                                 AVX512_NUM_SHA1_LANES * 4, 64, 20) };
-static const fdef f_hmac_sha224[] = { HMAC_FIELDS(MB_MGR_HMAC_SHA_256_OOO, HMAC_SHA1_LANE_DATA, 8, 4,
+static const fdef f_hmac_sha224[] = { HMAC_FIELDS(MB_MGR_HMAC_SHA_256_OOO, HMAC_SHA1_LANE_DATA, 7, 4,
                                                   AVX512_NUM_SHA256_LANES * 4, 64, 28) };
 static const fdef f_hmac_sha256[] = { HMAC_FIELDS(MB_MGR_HMAC_SHA_256_OOO, HMAC_SHA1_LANE_DATA, 8, 4,
                                                   AVX512_NUM_SHA256_LANES * 4, 64, 32) };
-static const fdef f_hmac_sha384[] = { HMAC_FIELDS(MB_MGR_HMAC_SHA_512_OOO, HMAC_SHA512_LANE_DATA, 8,
+static const fdef f_hmac_sha384[] = { HMAC_FIELDS(MB_MGR_HMAC_SHA_512_OOO, HMAC_SHA512_LANE_DATA, 6,
                                                   8, AVX512_NUM_SHA512_LANES * 8, 128, 48) };
 static const fdef f_hmac_sha512[] = { HMAC_FIELDS(MB_MGR_HMAC_SHA_512_OOO, HMAC_SHA512_LANE_DATA, 8,
                                                   8, AVX512_NUM_SHA512_LANES * 8, 128, 64) };
@@ -214,7 +218,9 @@ static const odef d_cmac = ODEF(MB_MGR_CMAC_OOO, job_in_lane, 8, 16, f_cmac);
 static const odef d_des = ODEF(MB_MGR_DES_OOO, job_in_lane, 8, 16, f_des);
 static const odef d_zuc = ODEF(MB_MGR_ZUC_OOO, job_in_lane, 8, 16, f_zuc);
 static const odef d_snow3g = ODEF(MB_MGR_SNOW3G_OOO, job_in_lane, 8, 16, f_snow3g);
-#define HDEF(T, LD, nl, tab) ODEF(T, ldata[0].job_in_lane, sizeof(LD), nl, tab)
+#define HDEF(T, LD, nl, tab)                                                                       \
+        { #T, sizeof(T), offsetof(T, ldata[0].job_in_lane), sizeof(LD), nl, tab,                   \
+          (int) (sizeof(tab) / sizeof(tab[0])), offsetof(T, total_num_lanes) }
 static const odef d_hmac_sha1 =
         HDEF(MB_MGR_HMAC_SHA_1_OOO, HMAC_SHA1_LANE_DATA, AVX512_NUM_SHA1_LANES, f_hmac_sha1);
 static const odef d_hmac_sha224 =
@@ -1004,8 +1010,10 @@ mgr_scan(uint64_t slot, const int full)
 /* ------------------------------------------------------------------------------------------ */
 /* storage invariant: a lane without a job holds only reset images                             */
 /* ------------------------------------------------------------------------------------------ */
+static size_t zuc_row_stride = 64; /* ZucState rows are packed by the number of lanes: sse 4, avx2 8, avx512 16 */
+
 static int
-field_nonzero(const uint8_t *o, const fdef *f, const int lane)
+field_nonzero(const uint8_t *o, const odef *d, const fdef *f, const int lane)
 {
         if (f->kind == F_LANE) {
                 const uint8_t *p = o + f->base + (size_t) lane * f->stride;
@@ -1015,8 +1023,23 @@ field_nonzero(const uint8_t *o, const fdef *f, const int lane)
                                 return 1;
                 return 0;
         }
+        if (f->ni_stride && d->tnl_off && *(const uint32_t *) (o + d->tnl_off) == 2) {
+                /* SHA-NI managers: two lanes, the digest words of a lane are contiguous */
+                if (lane >= 2)
+                        return 0;
+                const uint8_t *p = o + f->base + (size_t) lane * f->ni_stride;
+
+                for (size_t i = 0; i < f->nrows * f->len; i++)
+                        if (p[i])
+                                return 1;
+                return 0;
+        }
+        const size_t rs = f->row_stride ? f->row_stride : zuc_row_stride;
+
+        if (f->row_stride == 0 && (size_t) lane * f->stride >= rs)
+                return 0; /* no such lane on this architecture */
         for (size_t r = 0; r < f->nrows; r++) {
-                const uint8_t *p = o + f->base + r * f->row_stride + (size_t) lane * f->stride;
+                const uint8_t *p = o + f->base + r * rs + (size_t) lane * f->stride;
 
                 for (size_t i = 0; i < f->len; i++)
                         if (p[i])
@@ -1049,7 +1072,7 @@ storage_check(const uint64_t slot, const int record)
                                 continue;
                         for (int f = 0; f < d->nf; f++) {
                                 dstat *s = &dstats[i][f];
-                                const int nz = field_nonzero(o, &d->f[f], l);
+                                const int nz = field_nonzero(o, d, &d->f[f], l);
 
                                 if (job != NULL) {
                                         if (nz)
@@ -1179,7 +1202,7 @@ flush_dirty(void)
 
                                         printf("  now lane %d:", lane);
                                         for (size_t r = 0; r < (fd->kind == F_ROWS ? fd->nrows : 1); r++) {
-                                                const uint8_t *q = o + fd->base + r * fd->row_stride + (size_t) lane * fd->stride;
+                                                const uint8_t *q = o + fd->base + r * (fd->row_stride ? fd->row_stride : zuc_row_stride) + (size_t) lane * fd->stride;
 
                                                 printf(" ");
                                                 for (size_t b = 0; b < fd->len; b++)
@@ -1372,6 +1395,7 @@ main(int argc, char **argv)
                 return 2;
         }
         var_name = variant;
+        zuc_row_stride = strncmp(variant, "sse", 3) == 0 ? 16 : strncmp(variant, "avx2", 4) == 0 ? 32 : 64;
         n_slots = (int) ((offsetof(IMB_MGR, earliest_job) - offsetof(IMB_MGR, get_next_job)) / 8);
         if (n_slots > K13_NSLOTS) {
                 fprintf(stderr, "k13: too many handlers\n");
